@@ -87,6 +87,11 @@ def cases(rng, tier):
     g = gen.Gen(rng, max_depth=3)
     for rname, prog, ref in value_through_try(rng, g):
         yield Case(program=prog, variants=(ref,), tag='exc-value:' + rname, stdin="x\n")
+    # a loop whose every round is the *recovery* of a failed ㅅㄷ (retry(n) = ㅅㄷ(n == 0 ? 0 : throw, λe. retry(n−1))) runs in
+    # constant stack: the handler's result is handed over, not awaited
+    for n_ in (10, 6000 + rng.randint(0, 99)):
+        yield Case(program=f"{gen.enc(n_)} ((ㄱ (ㄴ ㄷㅂㅎㄴ ㄷㅈㅎㄴ) (ㄱㅇㄱ ㄱ ㄴㅎㄷ) ㅎㄷ) ((ㄱㅇㄴ ㄴㄱ ㄷㅎㄷ) ㄴㅇ ㅎㄴ ㅎ) ㅅㄷㅎㄷ ㅎ) ㅎㄴ",
+                   variants=("ㄱ",), tag='recovery-loop', fuel=400 * n_ + 10 ** 6, timeout=120, nontrivial=True)
     for _ in range(rounds):
         for name, tpl in STRICT:
             pl = payload(rng, g)
@@ -133,6 +138,21 @@ def cases(rng, tier):
             # … and when the first argument does raise, the faulty handler's own failure is what propagates (model)
             yield Case(program=f"(ㄹ ㄷㅂㅎㄴ ㄷㅈㅎㄴ) {hbad} ㅅㄷㅎㄷ", tag='handler-faulty-used', stdin="x\n")
             yield Case(program=f"((ㄹ ㄷㅂㅎㄴ ㄷㅈㅎㄴ) {hbad} ㅅㄷㅎㄷ) (ㄱㅇㄱ ㅎ) ㅅㄷㅎㄷ", tag='handler-faulty-used-nested', stdin="x\n")
+        # what ㅅㄷ yields after a failure *is the result of calling the handler*: an ordinary lazy value, whose components nobody
+        # looks at stay unevaluated (a failing, ill-typed or diverging one does no harm), and which is handed over as a tail
+        # call (seeded change S10k forced the handler's result completely inside the ㅅㄷ frame)
+        THROW = "(ㄹ ㄷㅂㅎㄴ ㄷㅈㅎㄴ)"
+        for bad in ["(ㄴ ㄷㅂㅎㄴ ㄷㅈㅎㄴ)", "(ㄴ ㄱ ㄴㄴㅎㄷ)", "(ㅈㅈㅈㅈㅈ ㅎㄱ)", "(ㄴ ㄱㅇ ㅎㄱ ㄷㅎㄷ ㅎ ㅎㄱ)"]:
+            got_list = f"{THROW} ({bad} ㄷ ㅁㄹㅎㄷ ㅎ) ㅅㄷㅎㄷ"
+            yield Case(program=f"ㄴ ({got_list}) ㅎㄴ", variants=("ㄷ",), tag='handler-result-lazy', stdin="x\n")
+            yield Case(program=f"({got_list}) ㅈㄷㅎㄴ", variants=("ㄷ",), tag='handler-result-lazy', stdin="x\n")
+            yield Case(program=f"(ㄴ ({got_list}) ㅎㄴ) (ㄴㄱ ㅎ) ㅅㄷㅎㄷ", variants=("ㄷ",), tag='handler-result-lazy-nested', stdin="x\n")
+            yield Case(program=f"ㄱ ({THROW} (ㄱㅇㄱ {bad} ㅁㄹㅎㄷ ㅎ) ㅅㄷㅎㄷ) ㅎㄴ", variants=("ㄹ ㄷㅂㅎㄴ",), tag='handler-result-lazy-exc', stdin="x\n")
+            yield Case(program=f"ㄴ ({THROW} (ㄱ {bad} ㄴ ㄷ ㅅㅈㅎㅁ ㅎ) ㅅㄷㅎㄷ) ㅎㄴ", variants=("ㄷ",), tag='handler-result-lazy-dict', stdin="x\n")
+            yield Case(program=f"ㄴ ({THROW} (({bad} ㅁㄹㅎㄴ) ㄷ ㅁㄹㅎㄷ ㅎ) ㅅㄷㅎㄷ) ㅎㄴ", variants=("ㄷ",), tag='handler-result-lazy-deep', stdin="x\n")
+            yield Case(program=f"ㄴ ({THROW} ({THROW} ({bad} ㄷ ㅁㄹㅎㄷ ㅎ) ㅅㄷㅎㄷ ㅎ) ㅅㄷㅎㄷ) ㅎㄴ", variants=("ㄷ",), tag='handler-result-lazy-chain', stdin="x\n")
+            # … and the same handler called directly with the same exception gives the same structure
+            yield Case(program=f"ㄴ ((ㄹ ㄷㅂㅎㄴ) ({bad} ㄷ ㅁㄹㅎㄷ ㅎ) ㅎㄴ) ㅎㄴ", variants=("ㄷ",), tag='handler-result-direct', stdin="x\n")
         # the exception that is thrown is the one that arrives: contents that are still lazy (and would fail if somebody
         # evaluated them) travel untouched through ㄷㅈ, re-throw and ㅅㄷ — the handler sees its own exception, not theirs
         for fault in ["(ㄱ ㄱ ㄴㄴㅎㄷ)", "(ㄹ ㄷㅂㅎㄴ ㄷㅈㅎㄴ)", "(ㅂㄱㅎㄱ ㅎㄱ)"]:
